@@ -19,14 +19,18 @@ RULE = ("model kinds {Model+jacobian, Model+gradient, Model without gradient, Li
         "(polynomial map, with/without imap, with/without gradient, over Continuous1D and Image2D-F), StepExpansion "
         "(max/min/mean, with/without gradient), user subclass of Continuous1D, user subclass of Geometry} x input forms "
         "{par, fun(is_par=False), CUQIarray par/fun carrying the same geometry object or an equal copy, Samples of parameters, "
-        "Samples of function values with is_par=False} ; gradient: direction forms x wrt forms x flags; rename on a "
-        "distribution; argument binding.  distinct = distinct (configuration, input values); trivial = identity geometry on "
-        "both sides with plain parameter input, and zero directions")
+        "Samples of function values with is_par=False} ; gradient: direction forms x wrt forms x flags x the three ways "
+        "(wrt-first, direction-first, np.asarray) of writing the model's gradient callable and the geometry's gradient, "
+        "which decide where numpy takes the CUQIarray subclass of the result from; fixed sections for the six defect "
+        "classes (geometry comparison: default-vs-subclass, Discrete sizes, gradient attribute; Samples flag; 0-d output; "
+        "tag leak); rename on a distribution; argument binding.  distinct = distinct (configuration, input values); "
+        "trivial = identity geometry on both sides with plain parameter input, and zero directions")
 
 F = Fraction
 SIG_DEFEQ = "Model._2par|array-input:default1d-domain,range-continuous1d-subclass-same-grid"
 SIG_SAMPLES = "Model._apply_func|samples-input:function-values,is_par=False"
 SIG_EQIDX = "Geometry._all_values_equal|array-input:Discrete-geometries-of-different-size:IndexError"
+SIG_EQKEY = "Geometry._all_values_equal|array-input:geometry-with-gradient-attribute-vs-equal-geometry-without:KeyError"
 SIG_0D = "Model.forward|range:single-step-StepExpansion:0-d-output"
 SIG_TAGLEAK = "Model.gradient|wrt:CUQIarray,domain-geometry-with-gradient:subclass-tag-of-wrt.funvals-reaches-_2par"
 
@@ -224,6 +228,7 @@ class Geo:
         import cuqi.geometry as G
         d, k = self.d, self.kind
         key = json.dumps(d, sort_keys=True)
+        fkey = json.dumps({k_: v_ for k_, v_ in d.items() if k_ not in ("grad", "gstyle")}, sort_keys=True)
         if k == "default1d":
             return d["n"]
         if k == "cont1d":
@@ -241,8 +246,8 @@ class Geo:
         dcs = fl(dcoef(ufs(d["cs"]))) if "cs" in d else None
         if k in ("mapped", "mapped_img"):
             base = G.Continuous1D(d["n"]) if k == "mapped" else G.Image2D((d["r"], d["c"]), order=d.get("order", "C"))
-            mp = _fn(("map", key), lambda: (lambda x: horner(cs, x)))
-            imp = _fn(("imap", key), lambda: (lambda x: horner(ics, x))) if ics is not None else None
+            mp = _fn(("map", fkey), lambda: (lambda x: horner(cs, x)))
+            imp = _fn(("imap", fkey), lambda: (lambda x: horner(ics, x))) if ics is not None else None
             g = G.MappedGeometry(base, map=mp, imap=imp)
             if d.get("grad"):
                 g.gradient = _fn(("grad", key), lambda: _geom_gradient(dcs, d.get("gstyle", "wrtfirst")))
@@ -514,6 +519,8 @@ def exc_class(e):
         return "EValue"
     if isinstance(e, IndexError):
         return "EIndex"
+    if isinstance(e, KeyError):
+        return "EKey"
     return "other:" + type(e).__name__
 
 
@@ -649,7 +656,7 @@ def _show(o):
 
 def coq_obs(obs):
     if obs[0] == "err":
-        return "(ObsErr %s)" % obs[1] if obs[1] in ("ENotImpl", "EValue", "EIndex") else "(ObsVal 99%nat [])"
+        return "(ObsErr %s)" % obs[1] if obs[1] in ("ENotImpl", "EValue", "EIndex", "EKey") else "(ObsVal 99%nat [])"
     return "(ObsVal %s %s)" % (cnat(obs[1]), clist([cqvec(c) for c in obs[2]]))
 
 
@@ -898,6 +905,10 @@ def classify(meta, detail):
             return SIG_SAMPLES
         if base in ("arrpar", "arrfun") and dg.kind == "discrete" and rg.kind == "discrete" and dg.pdim != rg.pdim:
             return SIG_EQIDX
+        strip = lambda g: {k_: v_ for k_, v_ in g.d.items() if k_ not in ("grad", "gstyle")}
+        if base in ("arrpar", "arrfun") and dg.kind in ("step", "mapped", "mapped_img") and dg.has_grad and not rg.has_grad \
+                and strip(dg) == strip(rg):
+            return SIG_EQKEY
         if rg.kind == "step" and rg.d["steps"] == 1 and base not in ("samples", "samplesfun") and "0-d output" in str(detail):
             return SIG_0D
         return "Model.forward|%s:%s->%s:%s" % (base, dg.name(), rg.name(), m["mk"])
@@ -1050,6 +1061,19 @@ def run(ctx):
             for dform, wform in [("par", "par"), ("arrpar", "par"), ("arrfun=copy", "arrpar"), ("par", "arrfun")]:
                 add(gradient_case, dict(op="gradient", mk=mk, dg=dg.d, rg=rg.d, dform=dform, wform=wform, d=fs(rand_vec(rng, m_)),
                                         w=fs(rand_vec(rng, n)), **mm))
+    # ---- a geometry object with a `gradient` attribute against an otherwise equal one without, always
+    for dg, rg in [(Geo(kind="step", nodes=4, steps=2, proj="max", grad=True), Geo(kind="step", nodes=4, steps=2, proj="max")),
+                   (Geo(kind="mapped", n=3, cs=fs([1, 2]), ics=fs([F(-1, 2), F(1, 2)]), grad=True),
+                    Geo(kind="mapped", n=3, cs=fs([1, 2]), ics=fs([F(-1, 2), F(1, 2)]))),
+                   (Geo(kind="mapped", n=3, cs=fs([1, 2]), ics=fs([F(-1, 2), F(1, 2)])),
+                    Geo(kind="mapped", n=3, cs=fs([1, 2]), ics=fs([F(-1, 2), F(1, 2)]), grad=True))]:
+        for mk in ["jac", "linfun", "pde_gw"]:
+            mm = rand_model(rng, mk, dg.nfun, rg.nfun)
+            for form in ["par", "arrpar", "arrfun=copy", "samples"]:
+                base = form.split("=")[0]
+                p = rand_vec(rng, dg.pdim, halves=False)
+                add(forward_case, dict(op="forward", mk=mk, dg=dg.d, rg=rg.d, form=form, vals=[fs(dg.o_par2fun(p) if base == "arrfun" else p)],
+                                       flag=True, call=False, **mm))
     # ---- single-parameter StepExpansion ranges, always (fun2par squeezes to a 0-d array)
     for n in [2, 3]:
         for pj in ["max", "min", "mean"] if n == 2 else ["max"]:
@@ -1153,8 +1177,10 @@ def run(ctx):
                                "the forward callable, the user Jacobian / direction-Jacobian product and the user geometry gradient are "
                                "oracles of the model (polynomial families A.phi(x)+b); the oracle differentiates the composite map exactly "
                                "with dual numbers over Fractions",
-                               "which of the two known defect states the tree is in is read off by two one-line probes; the model is "
-                               "evaluated for that state (both states are covered by theorems)"])
+                               "flat (1-d) user Jacobians / gradients are indexed like the parameter vector (shape (range_dim, domain_dim)), "
+                               "also for Image2D(order='F') domains",
+                               "which state (today / repaired) each of the three sites with a proposed repair is in is read off by one-line "
+                               "probes; the model is evaluated for that state (both states are covered by theorems)"])
 
 
 def oracle(ctx, meta):
@@ -1195,7 +1221,10 @@ W_TAGLEAK = dict(op="gradient", mk="dir", mstyle="wrtfirst",
 W_EQIDX = dict(op="forward", mk="linmat", dg=dict(kind="discrete", n=4), rg=dict(kind="discrete", n=3),
                form="arrpar", vals=[["1", "2", "3", "4"]], flag=True, call=False,
                A=[["1", "1", "-1", "0"], ["2", "0", "2", "-2"], ["0", "0", "1", "1"]], cs=["0", "1"], b=["0", "0", "0"])
-WITNESSES = {SIG_EQIDX: W_EQIDX, SIG_DEFEQ: W_DEFEQ, SIG_SAMPLES: W_SAMPLES, SIG_0D: W_0D, SIG_TAGLEAK: W_TAGLEAK}
+W_EQKEY = dict(op="forward", mk="jac", dg=dict(kind="step", nodes=4, steps=2, proj="max", grad=True),
+               rg=dict(kind="step", nodes=4, steps=2, proj="max"), form="arrpar", vals=[["1", "2"]], flag=True, call=False,
+               A=[[("1" if i == j else "0") for j in range(4)] for i in range(4)], cs=["0", "1"], b=["0"] * 4)
+WITNESSES = {SIG_EQIDX: W_EQIDX, SIG_EQKEY: W_EQKEY, SIG_DEFEQ: W_DEFEQ, SIG_SAMPLES: W_SAMPLES, SIG_0D: W_0D, SIG_TAGLEAK: W_TAGLEAK}
 
 
 def known_witnesses(ctx):
